@@ -2,7 +2,7 @@ SPEC = {
     'id': 'C25',
     'harness': 'hC25',
     'coq_dir': 'C25',
-    'claimed': False,
+    'claimed': True,
     'theorems': ['C25_converges', 'C25_converges_nonvacuous', 'C25_below_margin_order_dependent'],
     'allowed_axioms': [],
     'shard': 12,
